@@ -115,6 +115,67 @@ def exhaustive(nn):
     return out
 
 
+def single_violations(net, rng):
+    """from a VALID description: variants that violate (mostly) exactly one of the nine conditions each - so that
+    every condition is the only and hence the first one met, also with raises=True - and, for validity that must
+    not depend on insertion order, valid re-orderings in which a merge node is the node inserted last"""
+    import copy
+    nodes, edges = net.graph()
+    ids = [n for (n, _, _) in nodes]
+    new_n = max(ids) + 1
+    new_l = max(list(net.links) + list(net.x_links) + [-1]) + 1
+    new_o = max(list(net.origins) + list(net.x_origins) + [-1]) + 1
+    new_d = max(list(net.dests) + list(net.x_dests) + [-1]) + 1
+    indeg = {n: len([e for e in edges if e[1] == n]) for n in ids}
+    outdeg = {n: len([e for e in edges if e[0] == n]) for n in ids}
+    out = []
+
+    def variant(tag, extra_ops=(), front_ops=(), drop=None, links=(), origins=(), dests=()):
+        n2 = copy.deepcopy(net)
+        n2.family = f"{tag}-{net.family}"
+        for l in links:
+            n2.links[l] = dict(N=1, lanes=1, vsl=None)
+        for o, k in origins:
+            n2.origins[o] = k
+        for d, k in dests:
+            n2.dests[d] = k
+        ops = [op for op in n2.ops if op != drop]
+        n2.ops = list(front_ops) + ops + list(extra_ops)
+        if drop is not None and drop[0] == "origin":
+            n2.x_origins[drop[1]] = n2.origins.pop(drop[1])
+        if drop is not None and drop[0] == "dest":
+            n2.x_dests[drop[1]] = n2.dests.pop(drop[1])
+        out.append(n2)
+    dnodes = [n for (n, _, d) in nodes if d is not None]
+    onodes = [n for (n, o, _) in nodes if o is not None]
+    for dn in dnodes[:2]:
+        # (8) a second link merging directly into a destination node; the new source node is inserted after it
+        variant("only8", extra_ops=[("link", new_n, new_l, dn), ("origin", new_o, new_n)], links=[new_l], origins=[(new_o, "ideal")])
+        variant("only8-front", front_ops=[("origin", new_o, new_n), ("link", new_n, new_l, dn)], links=[new_l], origins=[(new_o, "ideal")])
+        # (9) a destination node with an exit
+        variant("only9", extra_ops=[("link", dn, new_l, new_n), ("dest", new_d, new_n)], links=[new_l], dests=[(new_d, "free")])
+    interior = [n for n in ids if indeg[n] >= 1 and outdeg[n] == 1 and n not in onodes and n not in dnodes]
+    for n in interior[:1]:
+        variant("only6", extra_ops=[("origin", new_o, n)], origins=[(new_o, rng.choice(["ideal", "main"]))])     # (6)
+    for n in [x for x in onodes if outdeg[x] == 1][:1]:
+        variant("only7", extra_ops=[("link", n, new_l, new_n), ("dest", new_d, new_n)], links=[new_l], dests=[(new_d, "free")])  # (7)
+    variant("only3", extra_ops=[("node", new_n)])                                                                  # (3)
+    for op in [op for op in net.ops if op[0] == "origin" and indeg.get(op[2], 0) == 0][:1]:
+        variant("only4", drop=op)                                                                                  # (4)
+    for op in [op for op in net.ops if op[0] == "dest"][:1]:
+        variant("only5", drop=op)                                                                                  # (5)
+    for dn in dnodes[:1]:
+        variant("both2", extra_ops=[("origin", new_o, dn)], origins=[(new_o, "ramp_out")])                         # (2)
+    if edges:
+        (u, d, l) = edges[0]
+        variant("dup1", extra_ops=[("link", new_n, l, new_n + 1), ("origin", new_o, new_n), ("dest", new_d, new_n + 1)],
+                origins=[(new_o, "ideal")], dests=[(new_d, "free")])                                               # (1)
+    for m in [n for n in ids if indeg[n] >= 2][:2]:
+        # still valid: every other node is inserted before the merge node
+        variant("valid-merge-last", front_ops=[("node", x) for x in ids if x != m])
+    return out
+
+
 def run_C06(ctx):
     out = {"failures": [], "disagreements": [], "info": [],
            "coverage": {"evaluations": 0, "distinct_nontrivial": 0, "samples": []}}
@@ -125,7 +186,10 @@ def run_C06(ctx):
         ex3 = exhaustive(3)
         cases += rng.sample(ex3, 20000)
     cases += [arbitrary(rng, nmax=rng.choice([2, 3, 4, 5])) for _ in range(400 if quick else 8000)]
-    cases += nets.families(rng) + [nets.random_valid(rng, 8) for _ in range(30 if quick else 300)]
+    valid = nets.families(rng) + [nets.random_valid(rng, 8) for _ in range(30 if quick else 300)]
+    cases += valid
+    for vn in valid:
+        cases += single_violations(vn, rng)
     models = None
     if ctx["model_ok"]:
         try:
